@@ -255,7 +255,7 @@ def _fields(kind):
         "ping_req": st.just({}), "ping_rsp": st.just({}), "packs": st.just({}), "supdt": st.just({}),
         "rferr": st.just({}), "wcreq": st.just({}),
         "vers_req": st.builds(lambda s: {"seq": s}, seq), "chan_req": st.builds(lambda s: {"seq": s}, seq),
-        "file_req": st.builds(lambda s: {"seq": s}, seq), "getwc": st.builds(lambda s: {"seq": s}, seq),
+        "file_req": st.builds(lambda s: {"seq": s}, seq), "getwc": st.builds(lambda s: {"seq": s}, seq), "reqwc": st.builds(lambda s: {"seq": s}, seq),
         "reqrm": st.builds(lambda s: {"seq": s}, seq), "updts": st.builds(lambda s: {"seq": s}, seq),
         "statu_full": st.builds(lambda s: {"seq": s}, seq),
         "vers_rsp": st.builds(lambda a, c, d_, e, f_, g: {"en": [a, c, d_], "co": [e, f_, g]}, w, b, b, w, b, b),
@@ -322,8 +322,13 @@ def strategy(tier):
 SEQ_FAMILIES = {
     "version": ["vers_req"], "channel": ["chan_req"], "configfile": ["file_req"],
     "status": ["statu", "statu_full"], "status-segments": ["statv"], "pack": ["spack_key", "spack_set"],
-    "watercare": ["getwc"], "reminders": ["reqrm"], "firmware": ["updts"], "ping": ["ping_rsp", "ping_req"],
+    "watercare": ["getwc", "reqwc"], "reminders": ["reqrm"], "firmware": ["updts"], "ping": ["ping_rsp", "ping_req"],
 }
+
+
+def _rx_only():
+    """messages the library decodes but has no constructor for (reference-built only; used in decode sequences)"""
+    return {"reqwc": ("watercare", None, lambda f: b"REQWC" + R.u8(f["seq"]), lambda p, f: _attrs(p, _sequence=f["seq"], schedule=True))}
 
 
 def _msgseq(res, case):
@@ -335,7 +340,7 @@ def _msgseq(res, case):
     for n, (kind, f) in enumerate(case["msgs"]):
         if kind not in SEQ_FAMILIES[fam]:
             raise InvalidCase(case)
-        _, build, ref, dec = kinds()[kind]
+        _, build, ref, dec = kinds().get(kind) or _rx_only()[kind]
         try:
             content = ref(f)
         except (ValueError, KeyError):
